@@ -1377,6 +1377,163 @@ fn rcase_strategy(max_ops: usize) -> BoxedStrategy<RCase> {
 
 // ===========================================================================
 
+// ---------------------------------------------------------------------------
+// router-threads: receive tasks of several interfaces deliver first-flight packets concurrently
+// ---------------------------------------------------------------------------
+
+/// Several receive tasks (one per interface; real threads, the interleaving is the operating
+/// system's) call `QuicRouter::deliver` with packets for destination connection IDs the router has
+/// not seen yet. The connectless handler does what `QuicListeners::try_accept_connection` does:
+/// it creates a connection and registers the original DCID synchronously. Every such ID must end
+/// up routed to exactly one connection, which receives every packet addressed to it.
+#[derive(Debug, Clone, Serialize, Deserialize)]
+struct TCase {
+    /// per thread: indices into `ids` in delivery order
+    plans: Vec<Vec<u8>>,
+    ids: Vec<[u8; 8]>,
+    rounds: u16,
+}
+
+fn tcase() -> impl Strategy<Value = TCase> {
+    (2usize..=4, 1usize..=4).prop_flat_map(|(threads, nids)| {
+        (
+            proptest::collection::vec(proptest::collection::vec(0u8..nids as u8, 1..6), threads),
+            proptest::collection::vec(any::<[u8; 8]>(), nids),
+            10u16..60,
+        )
+            .prop_map(|(plans, ids, rounds)| TCase { plans, ids, rounds })
+    })
+}
+
+fn run_router_threads(case: &TCase, ctx: &mut CaseCtx) -> Outcome {
+    use std::sync::{Barrier, Mutex, atomic::{AtomicUsize, Ordering::SeqCst}};
+    let mut contended = 0usize;
+    for round in 0..case.rounds {
+        // fresh router and fresh IDs every round: only the *first* packet for an ID can race
+        let router = Arc::new(QuicRouter::new());
+        let ids: Vec<ConnectionId> = case
+            .ids
+            .iter()
+            .enumerate()
+            .map(|(i, b)| {
+                let mut b = *b;
+                b[0] = i as u8; // distinct within the case
+                b[1] = round as u8;
+                ConnectionId::from_slice(&b)
+            })
+            .collect();
+        type Created = Vec<(ConnectionId, Arc<RcvdPacketQueue>, qinterface::component::route::QuicRouterEntry)>;
+        let created: Arc<Mutex<Created>> = Arc::new(Mutex::new(vec![]));
+        let in_handler = Arc::new(AtomicUsize::new(0));
+        let overlapped = Arc::new(AtomicUsize::new(0));
+        {
+            let (router2, created, in_handler, overlapped) = (Arc::downgrade(&router), created.clone(), in_handler.clone(), overlapped.clone());
+            let ok = router.on_connectless_packets(move |packet, way| {
+                if in_handler.fetch_add(1, SeqCst) > 0 {
+                    overlapped.fetch_add(1, SeqCst);
+                }
+                let dcid = match &packet {
+                    Packet::Data(d) => match &d.header {
+                        qbase::packet::DataHeader::Long(qbase::packet::long::DataHeader::Initial(h)) => *qbase::packet::GetDcid::dcid(h),
+                        _ => {
+                            in_handler.fetch_sub(1, SeqCst);
+                            return;
+                        }
+                    },
+                    _ => {
+                        in_handler.fetch_sub(1, SeqCst);
+                        return;
+                    }
+                };
+                // `Connection::new_server(..).with_cids(origin_dcid).run()`: the route is in the
+                // table before the handler returns
+                let queue = Arc::new(RcvdPacketQueue::new());
+                if let Some(router) = router2.upgrade() {
+                    let entry = router.insert(dcid.into(), queue.clone());
+                    // make the window in which a second task can be between its lookup and the
+                    // lock as wide as a real connection construction makes it
+                    std::thread::yield_now();
+                    // the spawned `try_accept_connection` future delivers the packet to the new connection
+                    let _ = router.try_deliver(packet, way).now_or_never();
+                    created.lock().unwrap().push((dcid, queue, entry));
+                }
+                in_handler.fetch_sub(1, SeqCst);
+            });
+            ensure!(ok, "harness", "connectless handler already installed");
+        }
+        let barrier = Arc::new(Barrier::new(case.plans.len()));
+        let sent = std::thread::scope(|scope| -> Result<Vec<usize>, Fail> {
+            let mut hs = vec![];
+            for (t, plan) in case.plans.iter().enumerate() {
+                let (router, barrier, ids) = (router.clone(), barrier.clone(), &ids);
+                hs.push(scope.spawn(move || -> Result<Vec<usize>, Fail> {
+                    let mut pkts = vec![];
+                    for i in plan {
+                        pkts.push((*i as usize, initial_packet(&ids[*i as usize])?));
+                    }
+                    let bind = BindUri::from(format!("127.0.0.1:{}", 4433 + t).parse::<SocketAddr>().unwrap());
+                    barrier.wait();
+                    let mut per_id = vec![0usize; ids.len()];
+                    for (k, (i, pkt)) in pkts.into_iter().enumerate() {
+                        let src: SocketAddr = SocketAddr::from(([10, 0, t as u8, 1], 2000 + k as u16));
+                        let dst: SocketAddr = format!("127.0.0.1:{}", 4433 + t).parse().unwrap();
+                        let way = (bind.clone(), Pathway::new(EndpointAddr::direct(dst), EndpointAddr::direct(src)), Link::new(src, dst));
+                        futures::executor::block_on(router.deliver(pkt, way));
+                        per_id[i] += 1;
+                    }
+                    Ok(per_id)
+                }));
+            }
+            let mut total = vec![0usize; ids.len()];
+            for h in hs {
+                let per = h.join().map_err(|_| Fail::new("panic@router-thread", "a delivering thread panicked"))??;
+                for (i, n) in per.iter().enumerate() {
+                    total[i] += n;
+                }
+            }
+            Ok(total)
+        })?;
+        ensure_eq!(overlapped.load(SeqCst), 0, "connectless-handler-reentered", "round {round}: the connectless handler ran on two threads at once");
+        let created = created.lock().unwrap();
+        for (i, id) in ids.iter().enumerate() {
+            if sent[i] == 0 {
+                continue;
+            }
+            let mine: Vec<_> = created.iter().filter(|(d, ..)| d == id).collect();
+            ensure_eq!(
+                mine.len(),
+                1,
+                "odcid-claimed-by-two-connections",
+                "round {round}: {} packets for the new destination connection ID {id:?} arrived on {} receive tasks and {} connections were created for it",
+                sent[i],
+                case.plans.iter().filter(|p| p.contains(&(i as u8))).count(),
+                mine.len()
+            );
+            let mut got = 0;
+            while let Some(Some(_)) = mine[0].1.initial().recv().now_or_never() {
+                got += 1;
+            }
+            // the per-type queue holds 8 packets; a packet beyond that is dropped like a full socket buffer
+            ensure!(
+                got == sent[i].min(8) || (sent[i] > 8 && got >= 8),
+                "first-flight-split",
+                "round {round}: {} packets were sent to {id:?}, its one connection received {got}",
+                sent[i]
+            );
+            if case.plans.iter().filter(|p| p.contains(&(i as u8))).count() > 1 {
+                contended += 1;
+            }
+        }
+        router.drain_connectless();
+    }
+    ctx.class(format!("threads:{}", case.plans.len()));
+    if contended > 0 {
+        ctx.class("id-contended-by-two-tasks");
+        ctx.nontrivial();
+    }
+    Ok(())
+}
+
 fn main() {
     let mut check = Check::from_env("C14", "exploration");
     check.rule(
@@ -1390,6 +1547,7 @@ fn main() {
          sending with at that moment (borrow in progress). exhaustive stage: every op sequence up to a small depth over a small alphabet. \
          distinct = by hash of the serialised case.",
     );
+    check.assume("router-threads stage: the interleaving of the delivering threads is the operating system's, not the seed's; the oracle is exact (one connection per new ID, every packet in its queue), detection and replay are probabilistic");
     check.assume("connection IDs generated by gm-quic are random; their uniqueness is checked but collisions are not provoked");
     check.assume("a path has at most one burst (borrow) in progress and is deactivated only between bursts (what qconnection's burst loop does)");
     check.assume("NEW_CONNECTION_ID frames have retire_prior_to <= seq (larger values are rejected by the frame decoder) and the same sequence number always carries the same ID");
@@ -1398,6 +1556,13 @@ fn main() {
     // ---- local: issuing + routing on a shared router
     let n = check.pick(120_000, 2_000_000);
     check.stage("local-router", n, 16, || lcase_strategy(45), run_local);
+    {
+        let n = check.pick(300, 12_000);
+        let keep = check.max_shrink_iters;
+        check.max_shrink_iters = 0; // the schedule is the operating system's: nothing to shrink towards
+        check.stage("router-threads", n, 4, tcase, run_router_threads);
+        check.max_shrink_iters = keep;
+    }
 
     // ---- remote: exhaustive small bounds
     let depth = if check.quick() { 4 } else { 5 };
